@@ -254,8 +254,8 @@ CLAIMS = {
              "pre-established associations. Tie: sessions of many operations (data to 100000 bytes, 2..200 blocks, every "
              "DataAccessResult at both positions, unexpected answers) run as the same script on the model and on the real "
              "DlmsClient over a scripted io_interface, plain and ciphered.",
-        note="APDUs are abstract in this model (their encodings are C01); sessions end at the first failing operation because "
-             "refused bytes stay in the library's buffer (C07). Trusted: Coq kernel, translator (state table), extraction + "
+        note="APDUs are abstract in this model (their encodings are C01); a session goes on after an error answer and ends at an "
+             "answer of the wrong kind (refused by the association, request left outstanding). Trusted: Coq kernel, translator (state table), extraction + "
              "driver, Python harness incl. the scripted io object.",
         technique="Coq proof (induction over block lists on top of the association model) + scripted-session correspondence",
         design="4/C19"),
@@ -268,7 +268,11 @@ CLAIMS = {
              "(LLC||APDU, unsegmented, numbered from the link) and one receive-ready frame per segment carrying the link's "
              "receive number after that segment (= N(S)+1 mod 8, C18_rr_number, wrap included), returns exactly the "
              "concatenated payloads without the LLC response header and leaves the link idle with nothing buffered or "
-             "unread. C18_connect / C18_disconnect: SNRM/UA leaves the link connected, DISC/UA disconnected, for every read "
+             "unread. C18_send_any_segmentation removes the acceptance hypothesis: the meter splits LLC||APDU into ANY list of "
+             "segments the frame format can carry and sends the STANDARD frames (C09 reference layout) numbered as the link "
+             "prescribes - that they parse is the C09 theorem, that the link admits them is read off the generated table - and "
+             "send() returns exactly the answer with exactly one receive-ready per segment but the last. C18_session: ANY "
+             "number of such exchanges on one transport (induction; the numbers wrap). C18_connect / C18_disconnect: SNRM/UA leaves the link connected, DISC/UA disconnected, for every read "
              "granularity. The client's frames always encode (short_encodes, info_encodes). Also kept: the loop-level "
              "theorems over delivered frames. Whole sessions (connect, up to 12 exchanges with wrapping numbers, disconnect, "
              "answers to 5000 bytes in 1..40 segments, read granularity down to single bytes) run as the same script on the "
